@@ -24,6 +24,23 @@ type ParserZH struct {
 	// 1) start from another line OR
 	// 2) seperate former statement with '；'
 	stmtCompleteFlag bool
+	// nesting depth of the statement / expression being parsed (see enterNesting)
+	depth int
+}
+
+// maxNestingDepth - how deep brackets, operands and blocks may nest. The parser recurses once
+// per level; without a bound a source made of a few hundred thousand opening brackets overflows
+// the Go stack, which ends the whole process instead of yielding a syntax error.
+const maxNestingDepth = 2000
+
+// enterNesting - called on entry of the recursive parse functions; the returned function
+// leaves the level again
+func (p *ParserZH) enterNesting() func() {
+	p.depth++
+	if p.depth > maxNestingDepth {
+		panic(p.getInvalidSyntaxPeek())
+	}
+	return func() { p.depth-- }
 }
 
 // NewParserZH -
